@@ -292,8 +292,11 @@ class MetadataBase(object):
         self.validate()
         parser = self._get_parser()
         self.serialize(parser)
+        # build the whole text first: what the writer cannot express must fail before the destination is opened
+        text = six.StringIO()
+        self.build_file(parser, text)
         with open_file_obj(f, "w") as f:
-            self.build_file(parser, f)
+            f.write(text.getvalue())
 
     def dumps(self):
         """
